@@ -22,10 +22,10 @@ import (
 func init() { families["evalview"] = runEvalView }
 
 type evVal struct {
-	K string          `json:"k"`
-	I *int64          `json:"i,omitempty"`
-	S *string         `json:"s,omitempty"`
-	B *bool           `json:"b,omitempty"`
+	K string           `json:"k"`
+	I *int64           `json:"i,omitempty"`
+	S *string          `json:"s,omitempty"`
+	B *bool            `json:"b,omitempty"`
 	E []evVal          `json:"e"`
 	M map[string]evVal `json:"m,omitempty"`
 }
